@@ -35,9 +35,9 @@ def observe(world):
                 ptr = (f.values.__array_interface__["data"][0], f.values.shape, f.values.strides)
                 if ptr not in ar_ids:
                     ar_ids[ptr] = len(ar_ids) + 101
-                    v = np.asarray(f.values, float).ravel()
-                    if not np.all(np.isfinite(v)) or np.abs(v - np.rint(v)).max() > 0 or np.abs(v).max() > 1e9:
-                        raise ValueError("non-integer content")
+                    v = np.asarray(f.values, float).ravel() * UNIT
+                    if not np.all(np.isfinite(v)) or np.abs(v - np.rint(v)).max() > 0 or np.abs(v).max() > 2e9:
+                        raise ValueError("content not representable at scale 1 / %d" % UNIT)
                     heap.append([ar_ids[ptr], [int(x) for x in v]])
                 fobj.append([fo_ids[k], ar_ids[ptr]])
             seq.append(fo_ids[k])
@@ -45,9 +45,12 @@ def observe(world):
     return {"cont": cont, "fobj": fobj, "heap": heap}
 
 
+UNIT = 1024
+
+
 def wvec(kind, v, n, off=0):
     g = np.arange(1, n + 1) + off
-    return (1.0 + ((g + v) % 2)) if kind == "mul" else (float(v) * g)
+    return (1.0 + ((g + v) % 2)) if kind in ("mul", "div") else (float(v) * g)
 
 
 def total(c):
@@ -62,6 +65,8 @@ def parse(tok):
         return {"op": "fiop", "c": k[1], "k": int(k[2]), "kind": k[3], "v": int(k[4])}
     if k[0] == "fill":
         return {"op": "fill", "c": k[1], "k": int(k[2]), "v": int(k[3])}
+    if k[0] == "ffop":
+        return {"op": "ffop", "c": k[1], "k": int(k[2]), "d": k[3], "j": int(k[4]), "kind": k[5]}
     if k[0] == "link":
         return {"op": "link", "a": k[1], "b": k[2]}
     if k[0] == "copy":
@@ -82,8 +87,10 @@ def execute(world, op):
             c += w
         elif op["kind"] == "sub":
             c -= w
-        else:
+        elif op["kind"] == "mul":
             c *= w
+        else:
+            c /= w
     elif o == "fiop":
         f = world[op["c"]][op["k"] - 1]
         w = wvec(op["kind"], op["v"], f.values.size)
@@ -91,6 +98,12 @@ def execute(world, op):
             f += w
         else:
             f *= w
+    elif o == "ffop":
+        f, g = world[op["c"]][op["k"] - 1], world[op["d"]][op["j"] - 1]
+        if op["kind"] == "add":
+            f += g
+        else:
+            f -= g
     elif o == "fill":
         world[op["c"]][op["k"] - 1].fill(float(op["v"]))
     elif o == "link":
@@ -100,7 +113,7 @@ def execute(world, op):
     elif o == "plus":
         a = world[op["a"]]
         w = wvec(op["kind"], op["v"], total(a))
-        world[op["t"]] = (a + w) if op["kind"] == "add" else (a - w)
+        world[op["t"]] = {"add": lambda: a + w, "sub": lambda: a - w, "mul": lambda: a * w, "div": lambda: a / w}[op["kind"]]()
     elif o == "join":
         world[op["t"]] = world[op["a"]] & world[op["b"]]
     else:
